@@ -130,7 +130,8 @@ async fn terminate(live: &mut Live, style: &Style) -> Result<(), String> {
                 // the capsule arrives in three pieces with an unrelated connection event (a GREASE
                 // unidirectional stream, invisible to the application) after each of the first two
                 let n = bytes.len();
-                let cuts = [(*code as usize % 5 + 1).min(n - 1), (n / 2).max(2).min(n - 1)];
+                // (the last cut leaves two bytes: the bulk of a long capsule is in before the final piece)
+                let cuts = [(*code as usize % 5 + 1).min(n - 1), (n / 2).max(2).min(n - 1), n.saturating_sub(2).max(3).min(n - 1)];
                 scen::write_cut(&live.peer, &mut s, &bytes, &cuts, scen::Event::GreaseUni, live.sid, ms(15)).await?;
             } else {
                 s.write_all(&bytes).await.map_err(|e| e.to_string())?;
@@ -429,7 +430,10 @@ pub fn run(args: &Args) -> Report {
         styles.push(Style::Capsule { code: *c, reason: reasons[(i + 2) % reasons.len()].clone(), prelude: 8 | (i as u8 % 8) });
     }
     for i in 0..(if args.thorough { 12 } else { 4 }) {
-        styles.push(Style::Capsule { code: 0x0C04_0000 + i as u32, reason: reasons[3 + i % 2].clone(), prelude: 16 | (i as u8 % 2) });
+        // a reason without repetitions: bytes served from the wrong offset cannot pass for the right ones
+        let len = [1000usize, 1024, 700][i % 3];
+        let reason: Vec<u8> = (0..len).map(|k| 0x21 + ((k * 7 + k / 94 * 13 + i) % 94) as u8).collect();
+        styles.push(Style::Capsule { code: 0x0C04_0000 + i as u32, reason, prelude: 16 | (i as u8 % 2) });
     }
     let whole = h3::frame(h3::FRAME_DATA, &capsule::close(5, b"never completed"));
     let partials: Vec<(Vec<u8>, &'static str)> = vec![
